@@ -172,6 +172,8 @@ fn check(o: &Opts) -> i32 {
             if o.ops.is_none() {
                 engines.push("E2-pull (pipelines in which one source value is subscribed repeatedly)");
                 run_pull::run(o, &mut rep);
+                engines.push("E2t-threads (one pipeline value subscribed from four threads at once)");
+                run_indep::run_threads(o, &mut rep);
             }
             engines.push("E3-vclock");
             run_vclock::run(o, &mut rep, 4);
@@ -371,7 +373,7 @@ fn required_clauses(prop: &str) -> &'static [&'static str] {
         "C10" => &["c10.greeting", "c10.all-ended-with-a-failure", "data-sequence", "fanin.completion", "fanin.pull-reaches-member", "tree.combine-instance-steps"],
         "C11" => &["c11.inner-emitted", "c11.switch", "c11.completion", "c11.pull-routing", "data-sequence", "tree.flatten-instance-steps"],
         "C12" => &["c12.attach", "c12.detach", "c12.fanout", "c12.resubscription", "churn.attach", "churn.datum-fanout", "churn.upstream-subscriptions"],
-        "C13" => &["c13.solo-replays", "stage same source value subscribed repeatedly (concat)", "stage same source value subscribed repeatedly (flatten)"],
+        "C13" => &["c13.solo-replays", "c13.threads.rounds-with-overlapping-subscriptions", "stage same source value subscribed repeatedly (concat)", "stage same source value subscribed repeatedly (flatten)"],
         "C14" => &["c14.prefix", "c14.quiescent", "pipelines: demand at the output judged"],
         "C15" => &["c15.step", "c15.next-call", "c15.exhausted", "c15.answered", "c15.deep-iterator-items-on-256KiB-stack"],
         "C16" => &["interval.ticks-delivered", "interval.cases-with-injected-spawn-failure", "interval.cases-with-disposal"],
